@@ -490,17 +490,18 @@ def timezone_name(dt, version=LATEST_VER):
         pass
 
     # Hard case, try to find one that's equivalent.  Hopefully we don't get
-    # many of these.  Start by getting the current timezone offset, and a
-    # timezone-naïve copy of the timestamp.
+    # many of these.  Start by getting the current timezone offset.
     offset  = dt.utcoffset()
-    dt_notz = dt.replace(tzinfo=None)
 
     if offset == datetime.timedelta(0):
         # UTC?
         return 'UTC'
 
+    # Look for a zone whose offset at this very instant is the same.  The
+    # instant is converted (never the wall-clock time interpreted), so
+    # skipped or ambiguous local times in a candidate zone cannot fail.
     for olson_name, haystack_name in list(tz_rmap.items()):
-        if pytz.timezone(olson_name).utcoffset(dt_notz) == offset:
+        if dt.astimezone(pytz.timezone(olson_name)).utcoffset() == offset:
             return haystack_name
 
     raise ValueError('Unable to get timezone of %r' % dt)
